@@ -213,3 +213,34 @@ Definition admit_check (c : admit_case) : bool :=
   let y := sys_run repaired y1 (flat_map (labels_of E) (ac_sched c)) in
   phases_agree (y_sess y) (ac_obs_sess c) &&
   costs_eqb (y_conns y) (ac_obs_conns c) && costs_eqb (y_selfrow y) (ac_obs_selfrow c).
+
+(* ---------- why the admission test must be ONE critical section ---------- *)
+
+(* The same admission with the "already connected?" test under a read lock and the insertion
+   under a later write lock (two atomic steps instead of one): what [at_most_one_session_per_id]
+   rules out becomes reachable.  Kept as a separate miniature automaton; [sys_step] is the code. *)
+Inductive split_phase := SInit | SChecked (id : bytes) (c : dy) | SHolding (id : bytes) (c : dy) | SRejected.
+
+Inductive split_label :=
+| SCheck (i : nat) (id : bytes)     (* session i reads s.connections: is id free? *)
+| SInsert (i : nat).                (* session i writes s.connections[id] = ci *)
+
+Definition split_step (self : bytes) (bi : binfo) (st : list (bytes * dy) * list split_phase) (l : split_label)
+  : list (bytes * dy) * list split_phase :=
+  let '(conns, ps) := st in
+  match l with
+  | SCheck i id =>
+    match nth_error ps i with
+    | Some SInit =>
+      if admissible repaired self bi conns id then (conns, set_nth ps i (SChecked id (cost_for bi id)))
+      else (conns, set_nth ps i SRejected)
+    | _ => st
+    end
+  | SInsert i =>
+    match nth_error ps i with
+    | Some (SChecked id c) => (aset conns id c, set_nth ps i (SHolding id c))
+    | _ => st
+    end
+  end.
+
+Definition split_run self bi st ls := fold_left (split_step self bi) ls st.
